@@ -1757,10 +1757,10 @@ pub fn spaces(tier: Tier) -> Vec<Space> {
     // 9. field grid: keys assembled with `new` over depth × index × parent fingerprint (incl. None) × key × chain code, both kinds
     let g = grid(tier);
     v.push(Space::new("field-grid", g.size(), move |case, acc| eval_grid(&g, case, acc)));
-    // 9b. malformed path components among valid ones: every path of 2..3 components over 4 valid and 6 malformed components with
+    // 9b. malformed path components among valid ones: every path of 2..3 components over 4 valid and 10 malformed components (among them hardened-marked numbers of 2^31 and more, whose offset addition overflows) with
     // at least one malformed, through the private and the public path parser - a reference path parser refuses all of them
     {
-        let comps: Vec<&'static str> = vec!["0", "1", "2'", "5h", "x", "O", "-1", "2147483648", "99999999999", "1.5"];
+        let comps: Vec<&'static str> = vec!["0", "1", "2'", "5h", "x", "O", "-1", "2147483648", "99999999999", "1.5", "2147483648'", "4294967295'", "2147483648h", "4294967296"];
         let nc = comps.len() as u64;
         v.push(Space::new("malformed-paths", (nc * nc + nc * nc * nc) * 2, move |case, acc| {
             let c = coords(case.idx, &[nc * nc + nc * nc * nc, 2]);
